@@ -13,7 +13,7 @@ _HOOKED = {}
 class Observation:
   """Everything observed for one code object."""
   __slots__ = ("qualname", "firstlineno", "ops_line", "n_ops", "blocks", "order", "ops", "items_line",
-               "real_ops_line", "version", "error")
+               "real_ops_line", "version", "error", "kind")
 
 
 def install_hooks():
@@ -226,6 +226,27 @@ def oracle(ops, nodes, order, opcodes):
   return v
 
 
+def code_kind(oc):
+  n = oc.name
+  if n == "<module>":
+    return "module"
+  if n == "<lambda>":
+    return "lambda"
+  if n in ("<listcomp>", "<setcomp>", "<dictcomp>"):
+    return "comprehension"
+  if n == "<genexpr>":
+    return "async-genexpr" if oc.has_async_generator() else "genexpr"
+  if oc.has_async_generator():
+    return "async-generator"
+  if oc.has_coroutine():
+    return "coroutine"
+  if oc.has_generator():
+    return "generator"
+  if not oc.has_newlocals():
+    return "class-body"
+  return "function"
+
+
 def observe_source(src, filename):
   """Compiles `src` with the real entry points and returns (list of Observation, error string or None)."""
   h = install_hooks()
@@ -247,7 +268,7 @@ def observe_source(src, filename):
   names = []
 
   def walk(oc):
-    names.append((oc.qualname or oc.name, oc.firstlineno))
+    names.append((oc.qualname or oc.name, oc.firstlineno, code_kind(oc)))
     # children are processed after _order_code of the parent, in co_consts order
     for c in oc.consts:
       if hasattr(c, "order") and hasattr(c, "code_iter"):
@@ -256,7 +277,7 @@ def observe_source(src, filename):
   obs = []
   for k, ((items_line, ver), (ops, ops_line, rol), (nodes, order)) in enumerate(zip(log["mol"], log["apbt"], log["order"])):
     ob = Observation()
-    ob.qualname, ob.firstlineno = names[k] if k < len(names) else ("?", 0)
+    ob.qualname, ob.firstlineno, ob.kind = names[k] if k < len(names) else ("?", 0, "?")
     ob.version = ver
     ob.ops = ops
     ob.n_ops = len(ops)
